@@ -139,8 +139,16 @@ static bool kern_available(int k) {
 
 static bool g_thorough = false;
 // all tuples of one (kernel, size, alignment-of-single-operand) group
-template <class F> static void for_group(int k, uint32_t s, uint32_t a, bool bigpass, bool thorough, F visit) {
+// bigpass: 0 = complete small grid, 1 = sampled large sizes, 2 = length sweep (every size up to a bound, few counts/constants)
+template <class F> static void for_group(int k, uint32_t s, uint32_t a, int bigpass, bool thorough, F visit) {
   Tuple t{}; t.kern = k; t.size = s; t.a_single = a; t.a_other = -1;
+  if (bigpass == 2) {
+    uint64_t x = mix2(0x5eed5eedULL + (uint64_t)k, s);
+    if (k == K_ADD) { t.cnt = 1; visit(t); }
+    else if (k == K_FROM_MULTI || k == K_TO_MULTI) { const uint32_t cs[5] = {2, 9, 10, 33, 3 + (uint32_t)(splitmix(x) % 38)}; for (uint32_t c : cs) { t.cnt = c; visit(t); } }
+    else { uint32_t nc = (k == K_GF24_ADDMUL || k == K_GF24_COMPACT) ? 16 : 256; t.cnt = 1; t.c = 2 + (uint32_t)(splitmix(x) % (nc - 2)); visit(t); }
+    return;
+  }
   if (k == K_ADD) { t.cnt = 1; for (int ao = 0; ao < 8; ao++) { t.a_other = ao; visit(t); } }
   else if (k == K_FROM_MULTI || k == K_TO_MULTI) { for (uint32_t c = 0; c <= (bigpass ? 9u : 20u); c++) { t.cnt = c; visit(t); } }
   else {
@@ -154,7 +162,7 @@ template <class F> static void for_group(int k, uint32_t s, uint32_t a, bool big
   }
 }
 
-static void run_group(int k, uint32_t s, uint32_t a, bool bigpass, bool thorough, uint64_t seed, bool count_stats) {
+static void run_group(int k, uint32_t s, uint32_t a, int bigpass, bool thorough, uint64_t seed, bool count_stats) {
   auto nontriv = [](const Tuple& t) {
     bool gfk = t.kern >= K_RS8_ADDMUL;
     return (t.size % (gfk ? 16 : 8)) != 0 || ((t.kern == K_FROM_MULTI || t.kern == K_TO_MULTI) && t.cnt != 1) || t.a_single != 0 || t.a_other > 0 || (gfk && t.c > 1);
@@ -164,6 +172,7 @@ static void run_group(int k, uint32_t s, uint32_t a, bool bigpass, bool thorough
     if (failed) return;
     idx++;
     for (int content = 0; content < 7 && !failed; content++) {
+      if (bigpass == 2 && content != 0 && !(content == 3 && s % 7 == 0)) continue;
       if (!thorough && content == 2) continue;
       if (!thorough && content == 1 && t.kern >= K_RS8_ADDMUL && t.c >= 4) continue;
       // sparse contents (zero runs / zero chunks): a kernel may special-case zero input
@@ -187,9 +196,12 @@ static void run_group(int k, uint32_t s, uint32_t a, bool bigpass, bool thorough
 
 static void run_c13(bool thorough, int worker, int nworkers, uint64_t seed) {
   uint32_t maxsize = thorough ? 80 : 40;
+  uint32_t sweep_xor = thorough ? 70000 : 12000, sweep_gf = thorough ? 20000 : 4500;
+  st.subspaces.push_back("length sweep: every size " + std::to_string(maxsize + 1) + ".." + std::to_string(sweep_xor) + " for the XOR kernels (operand counts 2, 9, 10, 33 and one seeded in 3..40) and .." + std::to_string(sweep_gf) + " for the multiply-accumulate kernels (one seeded constant); alignment and contents seeded");
   st.rule = "complete grid: every size 0.." + std::to_string(maxsize) + " x every alignment 0..7 of the single operand x (operand count 0..20 for the multiple-symbol kernels | every field constant for the multiply-accumulate kernels" + std::string(thorough ? " x every alignment of the other operand" : "; alignment of the other operand complete for XOR and for 6 constants, seeded otherwise") + "), each in an exact-size heap block (ASan redzone right after the last byte) and in a padded block whose guards must stay intact; contents seeded-random, all-ones, sparse with zero runs and zero 16-byte chunks" + std::string(thorough ? " and single-bit" : "") + "; plus sampled sizes 255, 256, 257, 1024, 1500, 65535; non-trivial = size not a multiple of the unroll width (8 for XOR, 16 for GF), or count != 1, or unaligned operand, or constant not in {0,1}; distinct = distinct (kernel, size, count, constant, alignments, content) tuple";
   st.exhaustive = true;
   st.subspaces.push_back("(size 0.." + std::to_string(maxsize) + ") x (alignment 0..7 of the single operand) x (count 0..20 | constant 0..255 / 0..15) enumerated completely for 7 kernels; contents sampled");
+  st.classes["length_sweep_sizes_xor"] = sweep_xor - maxsize; st.classes["length_sweep_sizes_gf"] = sweep_gf - maxsize;
   uint64_t gidx = 0;
   std::vector<uint32_t> big = {255, 256, 257, 1024, 1500, 65535};
   for (int k = 0; k < K_COUNT && !failed; k++) {
@@ -202,8 +214,18 @@ static void run_c13(bool thorough, int worker, int nworkers, uint64_t seed) {
           uint32_t s = pass ? big[si] : si;
           char b[128]; snprintf(b, sizeof b, "group kern=%s size=%u align=%u big=%d thorough=%d seed=%llu\n", kern_names[k], s, a, pass, thorough ? 1 : 0, (unsigned long long)seed);
           cur.put(b);
-          run_group(k, s, a, pass != 0, thorough, seed, true);
+          run_group(k, s, a, pass, thorough, seed, true);
         }
+    // length sweep: every size above the grid up to a bound (a kernel may switch strategy at any internal threshold)
+    bool xork = (k == K_ADD || k == K_FROM_MULTI || k == K_TO_MULTI);
+    uint32_t top = xork ? sweep_xor : sweep_gf;
+    for (uint32_t s = maxsize + 1; s <= top && !failed; s++) {
+      if ((gidx++ % (uint64_t)nworkers) != (uint64_t)worker) continue;
+      uint32_t a = (uint32_t)(mix2(seed, ((uint64_t)k << 32) | s) & 7);
+      char b[128]; snprintf(b, sizeof b, "group kern=%s size=%u align=%u big=2 thorough=%d seed=%llu\n", kern_names[k], s, a, thorough ? 1 : 0, (unsigned long long)seed);
+      cur.put(b);
+      run_group(k, s, a, 2, thorough, seed, true);
+    }
   }
 }
 
@@ -214,6 +236,7 @@ static uint64_t get_elem(const void* p, size_t es, size_t i) {
 }
 struct TabCheck { std::string name; std::function<bool(size_t, uint64_t&, bool&)> expect; /* index -> expected, skip */ };
 
+static std::string g_use_prefix;   // "use flavour=F sessions=N" line of the replay when the tables are checked after use
 static void check_table(const std::string& name, const void* p, size_t es, size_t cnt, size_t want_cnt,
                         std::function<bool(size_t, uint64_t&)> expect, std::function<bool(size_t)> nontrivial, long only = -1) {
   st.classes[name] += 0;
@@ -230,18 +253,25 @@ static void check_table(const std::string& name, const void* p, size_t es, size_
     std::string txt = "table=" + name + " index=" + std::to_string(i) + "\n";
     if (nontrivial(i)) { st.nontrivial++; st.distinct.insert(hash_text(txt)); if (st.samples.size() < 8 && st.distinct.size() % 20011 == 1) st.samples.push_back(txt + "  (value " + std::to_string(got) + ")"); }
     if (got != want)
-      fail("C14/TABLE/" + name + "/wrong_entry", name + "[" + std::to_string(i) + "] = " + std::to_string(got) + ", field arithmetic gives " + std::to_string(want), "# property C14\n" + txt);
+      fail("C14/TABLE/" + name + "/wrong_entry", name + "[" + std::to_string(i) + "] = " + std::to_string(got) + ", field arithmetic gives " + std::to_string(want) + (g_use_prefix.empty() ? "" : " (" + g_use_prefix.substr(0, g_use_prefix.size() - 1) + ")"), "# property C14\n" + g_use_prefix + txt);
   }
 }
 
-static void run_c14(const std::string& only_table = "", long only_index = -1) {
-  const ref::GF& f4 = ref::gf4(); const ref::GF& f8 = ref::gf8();
-  st.rule = "every entry of every multiplication / inverse / log / exp table of the GF(2^m) codec (precomputed, incl. the packed two-nibble table) and of the GF(2^8) codec (generated at first use, and after two further calls of the exported of_rs_init), compared with shift-and-reduce arithmetic in GF(2)[x]/(x^4+x+1) and GF(2)[x]/(x^8+x^4+x^3+x^2+1); log entry 0 is a documented sentinel and skipped; non-trivial = both operands (or the index) outside {0,1}";
+static bool g_c14_thorough = false;
+static void set_c14_rule() {
+  st.rule = std::string("every entry of every multiplication / inverse / log / exp table of the GF(2^m) codec (precomputed, incl. the packed two-nibble table) and of the GF(2^8) codec (generated at first use, and after two further calls of the exported of_rs_init), compared with shift-and-reduce arithmetic in GF(2)[x]/(x^4+x+1) and GF(2)[x]/(x^8+x^4+x^3+x^2+1); log entry 0 is a documented sentinel and skipped; the generated GF(2^8) tables are checked again, completely, after ordinary use of the codec kernel in three further workers (codec contexts created and freed | plus a repair symbol encoded | plus an erasure decoded), whenever the number of contexts reaches 2^j or 2^j + 1, up to ") + (g_c14_thorough ? "2^23 + 1" : "2^20 + 1") + " contexts; non-trivial = both operands (or the index) outside {0,1}";
   st.exhaustive = true;
-  st.subspaces.push_back("all table indices of three table sets (finite), enumerated completely");
+}
+static void run_c14(const std::string& only_table = "", long only_index = -1, int use_flavour = 0, uint64_t use_sessions = 0) {
+  const ref::GF& f4 = ref::gf4(); const ref::GF& f8 = ref::gf8();
+  set_c14_rule();
+  st.exhaustive = true;
+  if (use_flavour == 0) st.subspaces.push_back("all table indices of three table sets (finite), enumerated completely");
+  else st.subspaces.push_back("all indices of the generated GF(2^8) tables after 2^j and 2^j + 1 codec contexts, j = 0.." + std::string(g_c14_thorough ? "23" : "20") + ", for three kinds of use; the history space (which calls, which parameters) is sampled: k in 1..5, n - k in 1..3, 8-byte symbols");
   const void* p; size_t es, cnt, stride;
   auto want = [&](const std::string& n) { return only_table.empty() || only_table == n; };
-  if (shp_gf_available()) {
+  if (use_flavour != 0) { /* static tables of the GF(2^m) codec are checked by worker 0 */ }
+  else if (shp_gf_available()) {
     if (want("gf24_mul") && shp_gf_table(0, &p, &es, &cnt)) check_table("gf24_mul", p, es, cnt, 256, [&](size_t i, uint64_t& w) { w = f4.mul(i / 16, i % 16); return true; }, [](size_t i) { return i / 16 > 1 && i % 16 > 1; }, only_index);
     if (want("gf24_opt_mul") && shp_gf_table(1, &p, &es, &cnt)) check_table("gf24_opt_mul", p, es, cnt, 16 * 256, [&](size_t i, uint64_t& w) { unsigned c = i / 256, b = i % 256; w = (unsigned)(f4.mul(c, b >> 4) << 4) | f4.mul(c, b & 15); return true; }, [](size_t i) { return i / 256 > 1 && (i % 256) > 1; }, only_index);
     if (want("gf24_inv") && shp_gf_table(2, &p, &es, &cnt)) check_table("gf24_inv", p, es, cnt, 16, [&](size_t i, uint64_t& w) { if (!i) return false; w = f4.inv(i); return true; }, [](size_t i) { return i > 1; }, only_index);
@@ -255,13 +285,37 @@ static void run_c14(const std::string& only_table = "", long only_index = -1) {
   if (shp_rs8_available()) {
     // generated at first use; then regenerated twice through the exported of_rs_init(): the tables must
     // be the field after every generation
-    for (int round = 0; round < 3 && !failed; round++) {
-      if (round) shp_rs8_reinit();
-      st.counters["rs8_table_generations"]++;
+    auto rs8_tables = [&]() {
       if (want("rs8_exp") && shp_rs8_table(0, &p, &es, &cnt, &stride)) check_table("rs8_exp", p, es, cnt, 510, [&](size_t i, uint64_t& w) { w = f8.pow_x((unsigned)i); return true; }, [](size_t i) { return i > 1; }, only_index);
       if (want("rs8_log") && shp_rs8_table(1, &p, &es, &cnt, &stride)) check_table("rs8_log", p, es, cnt, 256, [&](size_t i, uint64_t& w) { if (!i || i >= 256) return false; w = (uint64_t)f8.log_[i]; return true; }, [](size_t i) { return i > 1; }, only_index);
       if (want("rs8_inverse") && shp_rs8_table(2, &p, &es, &cnt, &stride)) check_table("rs8_inverse", p, es, cnt, 256, [&](size_t i, uint64_t& w) { if (!i || i >= 256) return false; w = f8.inv(i); return true; }, [](size_t i) { return i > 1; }, only_index);
       if (want("rs8_mul") && shp_rs8_table(3, &p, &es, &cnt, &stride)) check_table("rs8_mul", p, es, cnt, stride * stride, [&](size_t i, uint64_t& w) { size_t a = i / stride, b = i % stride; if (a >= 256 || b >= 256) return false; w = f8.mul((unsigned)a, (unsigned)b); return true; }, [&](size_t i) { return i / stride > 1 && i % stride > 1; }, only_index);
+    };
+    if (use_flavour == 0) {
+      for (int round = 0; round < 3 && !failed; round++) {
+        if (round) shp_rs8_reinit();
+        st.counters["rs8_table_generations"]++;
+        rs8_tables();
+      }
+    } else {
+      // the generated tables are process-wide and writable: they must still be the field after any amount of ordinary
+      // use. Codec contexts are created/used/freed and the tables re-checked when the count reaches 2^j and 2^j + 1.
+      std::vector<uint64_t> cps;
+      for (uint64_t c = 1; c <= use_sessions; c *= 2) { cps.push_back(c); if (c + 1 <= use_sessions) cps.push_back(c + 1); }
+      cps.push_back(use_sessions);
+      std::sort(cps.begin(), cps.end()); cps.erase(std::unique(cps.begin(), cps.end()), cps.end());
+      uint64_t done = 0;
+      for (uint64_t cp : cps) {
+        if (failed) break;
+        int bad = shp_rs8_use(use_flavour, done, cp - done); done = cp;
+        char b[96]; snprintf(b, sizeof b, "use flavour=%d sessions=%llu\n", use_flavour, (unsigned long long)cp);
+        g_use_prefix = b; cur.put(std::string("# property C14\n") + b + "table=rs8_mul index=0\n");
+        if (bad) fail("C14/USE/codec_call_failed", std::to_string(bad) + " call(s) of the RS-2^8 codec kernel failed or decoded wrongly on valid input", std::string("# property C14\n") + b + "table=rs8_mul index=0\n");
+        st.counters["rs8_table_checks_after_use"]++;
+        rs8_tables();
+      }
+      st.counters["rs8_contexts_created_flavour_" + std::to_string(use_flavour)] += done;
+      g_use_prefix.clear();
     }
   } else {
     // black-box fallback: the RS-2^8 products observed through the exported-codec kernel are covered by C13/C06
@@ -295,8 +349,11 @@ int main(int argc, char** argv) {
       } else if (line.compare(0, 6, "group ") == 0) {
         char kn[64]; unsigned sz, al; int bigp, th; unsigned long long sd;
         if (sscanf(line.c_str(), "group kern=%63s size=%u align=%u big=%d thorough=%d seed=%llu", kn, &sz, &al, &bigp, &th, &sd) == 6) {
-          for (int k = 0; k < K_COUNT; k++) if (!strcmp(kn, kern_names[k]) && kern_available(k)) { any = true; run_group(k, sz, al, bigp != 0, th != 0, sd, false); }
+          for (int k = 0; k < K_COUNT; k++) if (!strcmp(kn, kern_names[k]) && kern_available(k)) { any = true; run_group(k, sz, al, bigp, th != 0, sd, false); }
         }
+      } else if (line.compare(0, 4, "use ") == 0) {
+        int fl = 0; unsigned long long ns = 0;
+        if (sscanf(line.c_str(), "use flavour=%d sessions=%llu", &fl, &ns) == 2 && fl >= 1 && fl <= 3) { run_c14("", -1, fl, ns); any = true; }
       } else if (line.compare(0, 6, "table=") == 0) {
         char tn[64]; char idx[32];
         if (sscanf(line.c_str(), "table=%63s index=%31s", tn, idx) == 2) { if (!any) run_c14(); any = true; }
@@ -307,9 +364,11 @@ int main(int argc, char** argv) {
     fprintf(rep, "REPLAY-PASS\n"); return 0;
   }
   if (!curp.empty()) cur.open(curp);
+  g_c14_thorough = thorough;
   if (prop == "C13") run_c13(thorough, worker, nworkers, seed);
   else if (worker == 0) run_c14();
-  else { st.rule = "(table enumeration runs in worker 0 only)"; st.exhaustive = true; }
+  else if (worker <= 3) run_c14("", -1, worker, thorough ? (1ull << 23) + 1 : (1ull << 20) + 1);
+  else { set_c14_rule(); }
   cur.clear();
   if (failed && !failout.empty()) write_file(failout, "# signature " + fsig + "\n# " + fmsg + "\n" + freplay);
   if (!out.empty()) write_stats(out, prop, st, failed, fsig, fmsg, failed ? failout : "");
